@@ -1897,6 +1897,41 @@ CATALOGUE['C10'] = [
 
 # --------------------------------------------------------------------- C11
 CATALOGUE['C11'] = [
+    V('explicit end below start not raised to start', 'DT_InSV.py',
+      """            if end < start:
+                end = start
+""",
+      """            if end < start:
+                end = end
+""", 'C11.R5'),
+    V('orphan absorption restarts at element 0', 'DT_InSV.py',
+      """        if start - 1 < orphan:
+            start = 1""",
+      """        if start - 1 < orphan:
+            start = 0""", 'C11.R5'),
+    V('start beyond the sequence is not cut back', 'DT_InSV.py',
+      """        try:
+            sequence[start - 1]
+        except Exception:
+            start = len(sequence)
+
+        if end > 0:""",
+      """        if end > 0:""", 'C11.R5'),
+    V('default size 0', 'DT_InSV.py',
+      "            size = 7", "            size = 0", 'C11.R5'),
+    V('silent: explicit end cut back to the length (the reverted repair)',
+      'DT_InSV.py',
+      """            if end < start:
+                end = start
+        else:""",
+      """            if end < start:
+                end = start
+            else:
+                try:
+                    sequence[end - 1]
+                except Exception:
+                    end = len(sequence)
+        else:"""),
     V('next batch ignores the overlap at one site', 'DT_In.py',
       """                    pstart, pend, psize = opt(end + 1 - overlap, 0,
                                               sz, orphan, sequence)
